@@ -7,7 +7,8 @@
 //!
 //! case kinds (field "mode"):
 //!   exec / sdl : {"id","mode","toks":[[k,s]|[k,"",raw]],"style":n}   tokens rendered with seeded ignored tokens
-//!   lex        : {"id","mode":"lex","text":[classes]}                  `{f(a:[` text `])}`
+//!                (style 0: none where legal, 1: single spaces, >=2: random + respelling; "seps":[..] = verbatim separators)
+//!   lex        : {"id","mode":"lex","text":[classes]}                  `{f(a:[` text LF `])}`
 //!   deep       : {"id","mode":"deep","depth":d,"shape":"field"|"inline"|"mixed"}
 use async_graphql_parser::types::*;
 use async_graphql_parser::{Error, parse_query, parse_schema};
@@ -347,7 +348,23 @@ const SPELL: &[&str] = &["a", "b", "_", "a1", "Z_9", "query", "fragment", "type"
     "onx", "truex", "nullable", "falsey", "queryx", "typeT", "on", "true", "null", "repeatable", "FIELD", "directive", "scalar"];
 const SPELL_SAFE: usize = 12; // prefix of SPELL that is a plain name everywhere
 
-fn render(toks: &mut Vec<J>, style: u64, rng: &mut StdRng) -> (String, Vec<&'static str>) {
+/// separators given verbatim by the case (witnesses of known findings)
+fn render_fixed(toks: &[J], seps: &[J], lead: &str, trail: &str) -> (String, Vec<&'static str>, Vec<String>, String, String) {
+    let mut src = String::from(lead);
+    let mut gaps = Vec::new();
+    for i in 0..toks.len() {
+        src.push_str(&tok_text(&toks[i]));
+        if i + 1 < toks.len() {
+            let g = seps[i].as_str().unwrap();
+            src.push_str(g);
+            gaps.push(if g.is_empty() { "" } else if g.contains('#') { "c" } else { "w" });
+        }
+    }
+    src.push_str(trail);
+    (src, gaps, seps.iter().map(|x| x.as_str().unwrap().to_string()).collect(), lead.to_string(), trail.to_string())
+}
+
+fn render(toks: &mut Vec<J>, style: u64, rng: &mut StdRng) -> (String, Vec<&'static str>, Vec<String>, String, String) {
     // respelling of the placeholder names a / b
     if style >= 2 {
         let r = rng.gen_range(0..8);
@@ -365,18 +382,22 @@ fn render(toks: &mut Vec<J>, style: u64, rng: &mut StdRng) -> (String, Vec<&'sta
     }
     let mut src = String::new();
     let mut gaps = Vec::new();
-    // leading ignored tokens (never judged as a gap)
-    if style >= 2 { src.push_str(&gap(rng, style, false).0); }
+    let mut seps = Vec::new();
+    // leading / trailing ignored tokens (never judged as a gap)
+    let lead = if style >= 2 { gap(rng, style, false).0 } else { String::new() };
+    src.push_str(&lead);
     for i in 0..toks.len() {
         src.push_str(&tok_text(&toks[i]));
         if i + 1 < toks.len() {
             let (g, code) = gap(rng, style, needs_sep(&toks[i], &toks[i + 1]));
             src.push_str(&g);
             gaps.push(code);
+            seps.push(g);
         }
     }
-    if style >= 2 { src.push_str(&gap(rng, style, false).0); }
-    (src, gaps)
+    let trail = if style >= 2 { gap(rng, style, false).0 } else { String::new() };
+    src.push_str(&trail);
+    (src, gaps, seps, lead, trail)
 }
 
 fn deep_tokens(depth: usize, shape: &str) -> Vec<J> {
@@ -424,17 +445,21 @@ fn main() {
                 let style = c["style"].as_u64().unwrap_or(1);
                 let cid = id.as_u64().unwrap_or(0);
                 let mut rng = StdRng::seed_from_u64(seed.wrapping_mul(0x9E37_79B9_7F4A_7C15).wrapping_add(cid).wrapping_add(style << 40));
-                let (src, gaps) = render(&mut toks, style, &mut rng);
+                let (src, gaps, seps, lead, trail) = match c.get("seps").and_then(|x| x.as_array()) {
+                    Some(seps) if seps.len() + 1 == toks.len() => render_fixed(&toks, seps, c["lead"].as_str().unwrap_or(""), c["trail"].as_str().unwrap_or("")),
+                    Some(_) => tool_error("case with seps of the wrong length"),
+                    None => render(&mut toks, style, &mut rng),
+                };
                 let sdl = mode == "sdl";
                 let (acc, err, defs) = run_parser(sdl, &src);
                 w.write(&json!({"id": id, "mode": if mode == "deep" { "exec" } else { mode.as_str() }, "toks": toks, "gaps": gaps,
-                    "text": [], "src": src, "acc": acc, "err": err, "ast": defs}));
+                    "text": [], "src": src, "acc": acc, "err": err, "ast": defs, "seps": seps, "lead": lead, "trail": trail}));
             }
             "lex" => {
                 let text = c["text"].as_array().unwrap();
-                let src = format!("{{f(a:[{}])}}", class_text(text));
+                let src = format!("{{f(a:[{}\n])}}", class_text(text));
                 let (acc, err, defs) = run_parser(false, &src);
-                w.write(&json!({"id": id, "mode": "lex", "toks": [], "gaps": [], "text": text, "src": src, "acc": acc, "err": err, "ast": defs}));
+                w.write(&json!({"id": id, "mode": "lex", "toks": [], "gaps": [], "text": text, "src": src, "acc": acc, "err": err, "ast": defs, "seps": [], "lead": "", "trail": ""}));
             }
             _ => tool_error(&format!("unknown mode {mode}")),
         }
